@@ -756,7 +756,8 @@ def oracle(case):
 
 
 def case_size(case):
-    return (len(json.dumps(case)),
+    # prefer a non-degenerate training frame, then the shortest description
+    return (0 if case["fit"]["rows"] else 1, len(json.dumps(case)),
             len(case["tr"]["rows"]) * len(case["tr"]["cols"]) + len(case["fit"]["rows"]) * len(case["fit"]["cols"]))
 
 
